@@ -149,6 +149,10 @@ func runC05(r *Run) {
 	n := r.n(40, 1000)
 	for i := 0; i < n; i++ {
 		o := srvOpts{noSecurity: i%5 != 4}
+		if i%10 == 9 {
+			// the node knows its public address; the ID it was configured with is whatever the caller chose
+			o.publicIP = []net.IP{{203, 0, 113, byte(1 + r.rng.Intn(250))}, {84, 12, byte(r.rng.Intn(256)), 9}, net.ParseIP("2a01:4f8::1:5")}[r.rng.Intn(3)]
+		}
 		sc := r.newSrvScen(o)
 		sc.tableHistory(120)
 		r.Result.TracesValidated++
